@@ -16,9 +16,9 @@ RULE = ("histories of 2-6 clients (threads, one proxy each, reconnecting now and
         "thread pool with THREADPOOL_SIZE_MIN=1 (workers reused by successive connections); a sequential phase forces worker reuse after a "
         "raising call. distinct = (history hash, server, serializer); one evaluation = one request; non-trivial = the request reached a method")
 ASSUMPTIONS = ["oneway completions are awaited (10 s watchdog, expiry = inconclusive)", "peer address compared with the client's getsockname() (TCP loopback)"]
-REQUIRED_REACH = ["injected_yields", "snapshots_checked", "replies_checked", "raising_calls", "oneway_calls", "batch_calls", "ping_replies", "handshake_replies", "worker_reuse_handshakes"]
+REQUIRED_REACH = ["injected_yields", "snapshots_checked", "replies_checked", "raising_calls", "oneway_calls", "batch_calls", "ping_replies", "handshake_replies", "worker_reuse_handshakes", "idless_requests", "reply_correlation_ids_checked", "refused_handshake_replies"]
 SHARD_TIMEOUT = {"quick": 240, "thorough": 2800}
-OPS = ["ret", "noresp", "noresp", "rais", "rais", "ow", "batch", "batch_rais", "propget", "propset", "ping", "handshake", "reconnect", "propget_rais"]
+OPS = ["ret", "noresp", "noresp", "rais", "rais", "ow", "batch", "batch_rais", "propget", "propset", "ping", "handshake", "reconnect", "propget_rais", "badhandshake"]
 
 
 class ServerLog:
@@ -26,6 +26,23 @@ class ServerLog:
         self.lock = threading.Lock()
         self.snap = {}
         self.done = {}
+        self.raw_sem = threading.Semaphore(1)      # one raw (ping/handshake) connection at a time: bounds the worker demand on the pool
+        self.nclients = 1
+        self.sent_corr = {}        # correlation id (bytes) a client sent -> token of that request
+        self.generated = {}        # correlation id a method saw while serving an id-less request -> token
+
+    def sent(self, corr, token):
+        with self.lock:
+            self.sent_corr[corr.bytes] = token
+
+    def foreign_corr(self, corr_bytes, token):
+        """the token of a DIFFERENT request that this correlation id belongs to (sent by it, or generated for it), else None"""
+        with self.lock:
+            t = self.sent_corr.get(corr_bytes)
+            if t is not None and t != token:
+                return t
+            t = self.generated.setdefault(corr_bytes, token)
+            return t if t != token else None
 
     def record(self, token, snap):
         with self.lock:
@@ -109,30 +126,55 @@ class Client(threading.Thread):
             serial = p.whoami()
             self.barrier.wait(10)
             n = 0
-            for op, idiom in self.ops:
+            for step in self.ops:
+                op, idiom = step[0], step[1]
+                has_corr = step[2] if len(step) > 2 else True
                 n += 1
                 token = "c%d-%d-%s" % (self.cid, n, uuid.uuid4().hex)
                 if op == "propget_rais":
                     token += "!"
-                corr = uuid.uuid4()
+                corr = uuid.uuid4() if has_corr else None     # id-less requests: the server must generate a fresh id, never reuse a foreign one
                 rec = {"op": op, "token": token, "idiom": idiom, "corr": corr, "serial": serial, "resp": None, "outcome": None, "kind": "proxy"}
-                if op in ("ping", "handshake"):
+                if corr is not None:
+                    self.slog.sent(corr, token)
+                if op in ("ping", "handshake", "badhandshake"):
                     rec["kind"] = op
-                    # a raw connection needs a free worker on the thread-pool server: wait (bounded) until an earlier raw connection's worker is back
-                    self.fx.wait_until(lambda: self.fx.live_connection_count() < P.config.THREADPOOL_SIZE - 1 or self.fx.servertype != "thread", 5.0)
-                    try:
-                        c = wire.RawClient(self.fx.location, timeout=10.0)
-                        m = c.handshake("svc", ser, anns=[(b"TOKN", token.encode())], corr=corr.bytes)
-                        if m.type != wire.CONNECTOK:
-                            rec.update(resp=dict(m.anns), outcome="refused")     # e.g. no free worker: still a reply whose annotations count
-                        elif op == "handshake":
-                            rec.update(kind="handshake", resp=dict(m.anns), outcome=m.type)
-                        else:
-                            m2 = c.ping(seq=5)
-                            rec.update(kind="ping", resp=dict(m2.anns), outcome=m2.type, resp_hs=dict(m.anns))
-                        c.close()
-                    except Exception as x:
-                        rec.update(outcome="error:%r" % (x,))
+                    # a raw connection needs a free worker on the thread-pool server. Worker demand is bounded by construction: at most one raw
+                    # connection at a time, started only when no earlier raw connection's worker is still busy, so that
+                    # live <= 2*clients (each proxy may be reconnecting, its old worker not yet back) + 1 <= pool size
+                    with self.slog.raw_sem:
+                        self.fx.wait_until(lambda: self.fx.live_connection_count() <= self.slog.nclients or self.fx.servertype != "thread", 5.0)
+                        try:
+                            c = wire.RawClient(self.fx.location, timeout=10.0)
+                            if op == "badhandshake":
+                                # a first message the daemon refuses before it has parsed anything of it (wrong type / unknown serializer / junk payload):
+                                # the refusal is a handshake answer too and must not carry a method's annotations
+                                variant = n % 3
+                                body = ser.dumps({"handshake": "hello", "object": "svc"})
+                                if variant == 0:
+                                    c.send(wire.encode(wire.INVOKE, 0, 0, ser.serializer_id, body))
+                                elif variant == 1:
+                                    c.send(wire.encode(wire.CONNECT, 0, 0, 99, body))
+                                else:
+                                    c.send(wire.encode(wire.CONNECT, 0, 0, ser.serializer_id, b"\xff\xfe not a handshake"))
+                                m = c.recv_msg()
+                                rec.update(kind="handshake", resp=dict(m.anns), outcome=m.type, bad=True)
+                                c.close()
+                                self.records.append(rec)
+                                continue
+                            m = c.handshake("svc", ser, anns=[(b"TOKN", token.encode())], corr=corr.bytes if corr else None)
+                            rec["reply_corr"] = [(m.flags & wire.F_CORR, m.corr)]
+                            if m.type != wire.CONNECTOK:
+                                rec.update(resp=dict(m.anns), outcome="refused")     # e.g. no free worker: still a reply whose annotations count
+                            elif op == "handshake":
+                                rec.update(kind="handshake", resp=dict(m.anns), outcome=m.type)
+                            else:
+                                m2 = c.ping(seq=5)
+                                rec.update(kind="ping", resp=dict(m2.anns), outcome=m2.type, resp_hs=dict(m.anns))
+                                rec["reply_corr"].append((m2.flags & wire.F_CORR, m2.corr))
+                            c.close()
+                        except Exception as x:
+                            rec.update(outcome="error:%r" % (x,))
                     self.records.append(rec)
                     continue
                 if op == "reconnect":
@@ -198,8 +240,26 @@ def check_history(fx, slog, clients, rec, pay):
             # (b)/(c): a reply carries RESP only if it answers the very call that set it
             if r["kind"] == "reconnect":
                 continue
+            if r["kind"] == "badhandshake":
+                rec.count("refused_without_reply")       # (unknown serializer id: the daemon just closes) nothing was sent, nothing can leak
+                continue
             if r["kind"] in ("ping", "handshake"):
-                rec.count("ping_replies" if r["kind"] == "ping" else "handshake_replies")
+                rec.count("ping_replies" if r["kind"] == "ping" else "refused_handshake_replies" if r.get("bad") else "handshake_replies")
+                for i, (flag, cb) in enumerate(r.get("reply_corr") or []):
+                    which = "handshake reply" if i == 0 else "ping reply"
+                    rec.count("reply_correlation_ids_checked")
+                    if i == 0 and r["corr"] is not None:
+                        if cb != r["corr"].bytes:
+                            rec.violation("reply-carries-foreign-correlation-id", "%s of client %d carries correlation id %s, the request's is %s" % (
+                                which, cl.cid, cb.hex(), r["corr"].hex), pay)
+                            return False
+                    elif cb != b"\0" * 16:
+                        # a request without an id (the raw PING, an id-less handshake): the reply may carry a freshly generated id, never another request's
+                        other = slog.foreign_corr(cb, token + "#%d" % i)
+                        if other is not None:
+                            rec.violation("reply-carries-foreign-correlation-id", "%s of client %d to a request that carried no correlation id carries %s, "
+                                          "the id of request %s" % (which, cl.cid, cb.hex(), other), pay)
+                            return False
                 for label, anns in (("reply", resp), ("handshake reply", r.get("resp_hs") or {})):
                     if anns.get("RESP") is not None:
                         rec.violation("response-annotation-leaks-to-%s-reply" % r["kind"], "%s of client %d (%s) carries RESP=%r, set by a method call of another request" % (
@@ -229,12 +289,17 @@ def check_history(fx, slog, clients, rec, pay):
                     rec.violation("method-ran-wrong-number-of-times", "client %d op %s token %s recorded %d context snapshots: %r" % (cl.cid, r["op"], tk, len(snaps), snaps), pay)
                     return False
                 s = snaps[0]
-                exp_flags = F.FLAGS_CORR_ID | (F.FLAGS_ONEWAY if r["op"] == "ow" else 0) | (F.FLAGS_BATCH if r["op"].startswith("batch") else 0)
+                exp_flags = (F.FLAGS_CORR_ID if r["corr"] is not None else 0) | (F.FLAGS_ONEWAY if r["op"] == "ow" else 0) | (F.FLAGS_BATCH if r["op"].startswith("batch") else 0)
                 local = r.get("local")
                 problems = []
                 if s["TOKN"] != token.encode():
                     problems.append("request annotation TOKN=%r (sent %r)" % (s["TOKN"], token))
-                if s["corr"] != r["corr"]:
+                if r["corr"] is None:
+                    rec.count("idless_requests")
+                    other = slog.foreign_corr(s["corr"].bytes, token) if isinstance(s["corr"], uuid.UUID) else "<none at all>"
+                    if other is not None:
+                        problems.append("correlation id %s although the request carried none: that id belongs to request %s" % (s["corr"], other))
+                elif s["corr"] != r["corr"]:
                     problems.append("correlation id %s (sent %s)" % (s["corr"], r["corr"]))
                 if s["seq"] != r.get("seq"):
                     problems.append("seq %r (sent %r)" % (s["seq"], r.get("seq")))
@@ -258,10 +323,11 @@ def check_history(fx, slog, clients, rec, pay):
 def run_history(fx, slog, rec, r, sername, nclients, nops):
     plans = []
     for c in range(nclients):
-        ops = [(r.choice(OPS), r.choice(["rebind", "inplace"])) for _ in range(nops)]
+        ops = [(r.choice(OPS), r.choice(["rebind", "inplace"]), r.random() < 0.65) for _ in range(nops)]
         plans.append(ops)
     pay = {"plans": plans, "serializer": sername, "servertype": fx.servertype, "pool": fx.P.config.THREADPOOL_SIZE}
     fx.wait_until(lambda: fx.live_connection_count() == 0, 10.0)      # workers of the previous history are back in the pool
+    slog.nclients = nclients
     barrier = threading.Barrier(nclients)
     clients = [Client(fx, slog, c, plans[c], sername, barrier) for c in range(nclients)]
     for c in clients:
@@ -283,16 +349,16 @@ def sequential_reuse(fx, slog, rec, r, sername):
     ser = P.serializers.serializers[sername]
     for idiom in ("rebind", "inplace"):
         for first in ("rais", "ow", "propget_rais", "batch_rais", "ret"):
-            for follow in ("handshake", "ping", "ret", "noresp", "reconnect"):
+            for follow in ("handshake", "ping", "ret", "noresp", "reconnect", "badhandshake"):
                 barrier = threading.Barrier(1)
                 c1 = Client(fx, slog, 90, [(first, idiom)], sername, barrier)
                 c1.start()
                 c1.join(30)
                 fx.wait_until(lambda: fx.live_connection_count() == 0, 5.0)
-                c2 = Client(fx, slog, 91, [(follow, idiom)], sername, barrier)
+                c2 = Client(fx, slog, 91, [(follow, idiom, False)], sername, barrier)     # the follow-up carries no correlation id of its own
                 c2.start()
                 c2.join(30)
-                pay = {"plans": [[(first, idiom)], [(follow, idiom)]], "sequential": True, "serializer": sername, "servertype": fx.servertype, "pool": P.config.THREADPOOL_SIZE}
+                pay = {"plans": [[(first, idiom)], [(follow, idiom, False)]], "sequential": True, "serializer": sername, "servertype": fx.servertype, "pool": P.config.THREADPOOL_SIZE}
                 rec.case(("seq", first, follow, idiom, sername, fx.servertype))
                 rec.count("worker_reuse_handshakes")
                 # the connect handshake of c2 itself (made by Proxy._pyroBind) is also a reply of the reused thread:
@@ -321,7 +387,7 @@ def run_shard(shard, rec):
         for h in range(shard["histories"]):
             if rec.should_stop(10):
                 break
-            nclients = r.randrange(2, 5) if shard["pool"] >= 8 else 1
+            nclients = (r.randrange(2, 6) if shard["servertype"] == "multiplex" else r.randrange(2, 4)) if shard["pool"] >= 8 else 1
             # raw ping/handshake ops need a free worker on the thread server: clients + raw connections in flight <= pool
             run_history(fx, slog, rec, r, shard["serializer"], nclients, r.randrange(4, 14))
             if not fx.loop_alive():
